@@ -59,13 +59,26 @@ func (m mspec) newMatcher() *labels.Matcher {
 		return labels.MustNewMatcher(labels.MatchNotEqual, m.Name, m.Val)
 	case "MRePlus":
 		return labels.MustNewMatcher(labels.MatchRegexp, m.Name, ".+")
+	case "MReSet", "MNReSet": // alternatives in exactly the given (shuffled) order
+		alts := strings.Split(m.Val, "\x00")
+		for i := range alts {
+			alts[i] = regexp.QuoteMeta(alts[i])
+		}
+		t := labels.MatchRegexp
+		if m.Kind == "MNReSet" {
+			t = labels.MatchNotRegexp
+		}
+		return labels.MustNewMatcher(t, m.Name, strings.Join(alts, "|"))
 	default:
 		return labels.MustNewMatcher(labels.MatchRegexp, m.Name, regexp.QuoteMeta(m.Val)+".*")
 	}
 }
 
 func (m mspec) gallina() string {
-	return fmt.Sprintf("mkM %s %s %s", m.Kind, pks(m.Name), pks(m.Val))
+	if m.Kind == "MReSet" || m.Kind == "MNReSet" {
+		return fmt.Sprintf("mkM %s %s (@nil N) %s", m.Kind, pks(m.Name), gStrs(strings.Split(m.Val, "\x00")))
+	}
+	return fmt.Sprintf("mkM %s %s %s []", m.Kind, pks(m.Name), pks(m.Val))
 }
 
 func gMatchers(ms []mspec) string {
@@ -119,6 +132,58 @@ type probes struct {
 	Sel    []struct{ Q bool; M []mspec }
 	LNames [][]mspec
 	LVals  []struct{ N string; M []mspec }
+	MPost  []struct{ N string; Vs []string } // Postings(name, values...) in exactly this order
+}
+
+// pickValues: 2..6 values of a label in random order: existing ones (with a duplicate now and then),
+// absent ones between existing values, one before the first and one beyond the last.
+func pickValues(r *gen.Rand, vals []string) []string {
+	k := 2 + r.Intn(5)
+	var out []string
+	for len(out) < k {
+		v := vals[r.Intn(len(vals))]
+		switch r.Intn(8) {
+		case 0:
+			v += "_absent" // between two values (or beyond the last)
+		case 1:
+			v = vals[len(vals)-1] + "zz" // beyond the last
+		case 2:
+			v = "!" + v // before the first
+		case 3:
+			if len(out) > 0 {
+				v = out[r.Intn(len(out))] // duplicate
+			}
+		case 4:
+			v = vals[len(vals)-1]
+		case 5:
+			v = vals[0]
+		}
+		out = append(out, v)
+	}
+	// make sure the order is not increasing when there are two different values
+	sorted := sort.StringsAreSorted(out)
+	if sorted {
+		for i, j := 0, len(out)-1; i < j; i, j = i+1, j-1 {
+			out[i], out[j] = out[j], out[i]
+		}
+	}
+	return out
+}
+
+func existing(vs, vals []string) []string {
+	set := map[string]bool{}
+	for _, v := range vals {
+		set[v] = true
+	}
+	var out []string
+	seen := map[string]bool{}
+	for _, v := range vs {
+		if set[v] && !seen[v] {
+			seen[v] = true
+			out = append(out, v)
+		}
+	}
+	return out
 }
 
 // firstRunes returns a non-empty proper prefix of v when there is one (whole runes).
@@ -177,6 +242,27 @@ func makeProbes(r *gen.Rand, o *blockObs, maxNames int, lean bool) *probes {
 			p.Sel = append(p.Sel, struct{ Q bool; M []mspec }{false, ms})
 			if j == 0 || (k+j)%3 == 0 { // the same selection through a real querier
 				p.Sel = append(p.Sel, struct{ Q bool; M []mspec }{true, ms})
+			}
+		}
+		// multi-value lookups with the values NOT in increasing order
+		if len(vals) >= 2 {
+			nm := 1
+			if lean {
+				nm = 2
+			}
+			for j := 0; j < nm; j++ {
+				vs := pickValues(r, vals)
+				p.MPost = append(p.MPost, struct{ N string; Vs []string }{n, vs})
+				if ex := existing(vs, vals); len(ex) >= 2 {
+					// set matchers need >= 2 alternatives to take the Postings(name, values...) path; absent
+					// alternatives are fine for the regexp but keep the alternatives free of the "!" prefix
+					set := []mspec{{"MReSet", n, strings.Join(ex, "\x00")}}
+					p.Sel = append(p.Sel, struct{ Q bool; M []mspec }{false, set}, struct{ Q bool; M []mspec }{true, set})
+					if j == 0 {
+						nset := []mspec{{"MNReSet", n, strings.Join(ex, "\x00")}}
+						p.Sel = append(p.Sel, struct{ Q bool; M []mspec }{false, nset}, struct{ Q bool; M []mspec }{true, nset})
+					}
+				}
 			}
 		}
 		if lean && k%3 != 0 {
@@ -386,6 +472,21 @@ func suite(b *tsdb.Block, base *blockObs, pr *probes) []probeAns {
 			return ans{Refs: refs}
 		})
 	}
+	for _, mp := range pr.MPost {
+		mp := mp
+		call := func(vs []string) ans { return refsAns(ir.Postings(ctx, mp.N, append([]string{}, vs...)...)) } // fresh copy: the reader may sort it
+		add(gPostings, fmt.Sprintf("Postings(%q,%q...)", mp.N, mp.Vs), func() ans { return call(mp.Vs) })
+		add(gPostings, fmt.Sprintf("Postings(%q,sorted %q...)", mp.N, mp.Vs), func() ans {
+			vs := append([]string{}, mp.Vs...)
+			sort.Strings(vs)
+			return call(vs)
+		})
+		add(gPostings, fmt.Sprintf("Postings(%q,reversed-sorted %q...)", mp.N, mp.Vs), func() ans {
+			vs := append([]string{}, mp.Vs...)
+			sort.Sort(sort.Reverse(sort.StringSlice(vs)))
+			return call(vs)
+		})
+	}
 	for _, ms := range pr.LNames {
 		ms := ms
 		add(gLabelNamesM, fmt.Sprintf("LabelNames(%v)", matchers(ms)), func() ans { return strsAns(ir.LabelNames(ctx, matchers(ms)...)) })
@@ -452,7 +553,11 @@ func gQueries(base *blockObs, pr *probes, as []probeAns) string {
 			lnf = append(lnf, gallina.Pair(gRefs(p.Refs), gRes(a, true)))
 		}
 	}
-	return fmt.Sprintf("(mkQ %s\n %s\n %s\n %s\n %s\n %s)", gallina.List(slv), gallina.List(mt), gallina.List(sel), gallina.List(lnm), gallina.List(lvm), gallina.List(lnf))
+	var mpo []string
+	for _, mp := range pr.MPost {
+		mpo = append(mpo, fmt.Sprintf("(%s, %s, %s)", pks(mp.N), gStrs(mp.Vs), gRes(by[fmt.Sprintf("Postings(%q,%q...)", mp.N, mp.Vs)], false)))
+	}
+	return fmt.Sprintf("(mkQ %s\n %s\n %s\n %s\n %s\n %s\n %s)", gallina.List(slv), gallina.List(mt), gallina.List(sel), gallina.List(lnm), gallina.List(lvm), gallina.List(lnf), gallina.List(mpo))
 }
 
 // sortedOK: the two sorted variants must agree with their unsorted forms on the undamaged block
@@ -463,6 +568,14 @@ func sortedConsistency(as []probeAns) string {
 		by[a.What] = a.A
 	}
 	for what, a := range by {
+		// Postings(name, values...) must not depend on the order of the values
+		if strings.HasPrefix(what, "Postings(") && strings.Contains(what, ",sorted ") {
+			for _, other := range []string{strings.Replace(what, ",sorted ", ",", 1), strings.Replace(what, ",sorted ", ",reversed-sorted ", 1)} {
+				if o, ok := by[other]; ok && o.key() != a.key() {
+					return fmt.Sprintf("%s = %s but %s = %s", what, a.key(), other, o.key())
+				}
+			}
+		}
 		if strings.HasPrefix(what, "SortedLabelValues(") && strings.Contains(what, ",[") {
 			if o, ok := by[strings.TrimPrefix(what, "Sorted")]; ok && o.key() != a.key() {
 				return fmt.Sprintf("%s = %s but LabelValues gives %s", what, a.key(), o.key())
